@@ -12,14 +12,14 @@ import (
 func init() {
 	register(&Check{
 		ID: "C15", Level: "exploration", QuickSecs: 150, ThoroughSecs: 900,
-		Rule:        "ALL character classes made of 1..K items (quick K=3, thorough K=4) from {a,Z,_,0,é,a-c,X-b,@-Z,0-é,\\pL,\\p{Nd},\\p{Latin},\\],\\p{Lu},U+212A KELVIN SIGN,U+0100-U+0200,!-U+00FF,l-K(U+212A),j-U+0130,!-_,U+00D7-U+00F7,k,i-k} x inverted x ignore-case, plus EVERY Unicode class name the front-end accepts (about 200) alone, inverted and with i; eight classes per grammar (one rule each, selected with Entrypoint); inputs: each of the 128 Basic Latin runes, every rune U+0080..U+024F, KELVIN SIGN U+212A, ANGSTROM SIGN U+212B, U+FFFD (valid encoding), the invalid byte 0xFF (AllowInvalidUTF8) and the empty input. For every (class, input): parser generated with -optimize-basic-latin vs parser generated without it (real vs real), both also against the reference class semantics (member iff some element of the class equals the rune, under simple case folding when i; ^ complements; EOF never matches). Non-trivial = the class matches the rune (table entry true) or the class is case-insensitive.",
+		Rule:        "ALL character classes made of 1..K items (quick K=3, thorough K=4) from {a,Z,_,0,é,a-c,X-b,@-Z,0-é,\\pL,\\p{Nd},\\p{Latin},\\],\\p{Lu},U+212A KELVIN SIGN,U+0100-U+0200,!-U+00FF,l-K(U+212A),j-U+0130,!-_,U+00D7-U+00F7,k,i-k} x inverted x ignore-case, plus EVERY Unicode class name the front-end accepts (about 200) alone, inverted and with i; eight classes per grammar (one rule each, selected with Entrypoint); inputs: each of the 128 Basic Latin runes, every rune U+0080..U+024F, KELVIN SIGN U+212A, ANGSTROM SIGN U+212B, U+FFFD (valid encoding), the invalid byte 0xFF and eleven more invalid byte shapes (0x80, 0x81, 0xBF, overlong lead, truncated 2/3/4-byte sequences, a surrogate, 0xFE; AllowInvalidUTF8 as the option set says) and the empty input; class items also U+0080-U+00FF, U+0080 and U+FFFD. For every (class, input): parser generated with -optimize-basic-latin vs parser generated without it (real vs real), both also against the reference class semantics (member iff some element of the class equals the rune, under simple case folding when i; ^ complements; EOF never matches). Non-trivial = the class matches the rune (table entry true) or the class is case-insensitive.",
 		Assumptions: []string{"E1 loader", "reference class semantics for i = simple case folding of both sides"},
 		Run:         runC15,
 	})
 }
 
 func classItems() []string {
-	return []string{"a", "Z", "_", "0", "é", "a-c", "X-b", "@-Z", "0-é", `\pL`, `\p{Nd}`, `\p{Latin}`, "]", `\p{Lu}`, "K", "Ā-Ȁ", "!-ÿ", "l-K", "j-İ", "!-_", "×-÷", "k", "i-k"}
+	return []string{"a", "Z", "_", "0", "é", "a-c", "X-b", "@-Z", "0-é", `\pL`, `\p{Nd}`, `\p{Latin}`, "]", `\p{Lu}`, "K", "Ā-Ȁ", "!-ÿ", "l-K", "j-İ", "!-_", "×-÷", "k", "i-k", "\u0080-ÿ", "\ufffd", "\u0080"}
 }
 
 func runC15(c *ShardCtx) {
@@ -75,6 +75,11 @@ func runC15(c *ShardCtx) {
 		}
 	}
 	inputs = append(inputs, []byte("\u212a"), []byte("\u212b"))
+	// invalid bytes of every shape as the (only) rune: stray continuation bytes incl. 0x80 and 0xBF, an
+	// overlong lead, a truncated two-, three- and four-byte sequence, a surrogate, 0xFE
+	for _, bs := range [][]byte{{0x80}, {0x81}, {0xbf}, {0xc0}, {0xc1}, {0xc3}, {0xe2, 0x82}, {0xf0, 0x9f}, {0xed, 0xa0, 0x80}, {0xfe}, {0x80, 'a'}, {0xc3, 'a'}} {
+		inputs = append(inputs, bs)
+	}
 	const per = 8
 	idx := 0
 	for i := 0; i < len(classes); i += per {
